@@ -2,12 +2,14 @@
 pub mod c01;
 pub mod c02;
 pub mod c03;
+pub mod c05;
+pub mod c09;
 pub mod common;
 
 use crate::core::Check;
 
 pub fn registry() -> Vec<&'static dyn Check> {
-    vec![&c01::C01, &c02::C02, &c03::C03]
+    vec![&c01::C01, &c02::C02, &c03::C03, &c05::C05, &c09::C09]
 }
 
 pub fn find(id: &str) -> Option<&'static dyn Check> {
